@@ -318,6 +318,9 @@ pub fn constructs() -> Vec<&'static str> {
         "A1", "$A$1", "A$1", "$A1", "D5", "C3", "XFD1048576", "$XFD$1048576",
         "A1:B2", "$A$1:$B$2", "A$1:$B2", "D4:E5", "A:A", "$A:$B", "A:$B", "C:E", "1:1", "$1:$2", "1:$2", "3:5",
         "$1:$1048576", "$A:$XFD", "1:1048576", "A:XFD",
+        // ranges that reach the last row / column with mixed absolute flags (they must not collapse into A:A / 1:1 forms)
+        "C4:C$1048576", "D4:E$1048576", "C$1:C1048576", "C1:C$1048576", "$C4:$C$1048576", "D3:$XFD3", "D4:$XFD5", "$A3:XFD3",
+        "A3:$XFD3", "C2:C$1048576", "B3:$XFD3",
         "Sheet2!A1", "Sheet2!$A$1:B2", "'My Sheet'!A1", "'It''s'!$A$1:B2", "Sheet2!A:A", "'My Sheet'!1:2",
         "Sheet1!A1", "NoSheet!A1", "NoSheet!A1:B2", "'No Sheet'!$A1", "'No''Sheet'!A:B",
         // arrays
